@@ -81,6 +81,8 @@ pub fn fnv_of<T: Hash + ?Sized>(t: &T) -> u64 {
 pub struct Hold<const N: usize> {
     pub elems: Vec<E>,
     pub bufs: Vec<Box<Cb<N>>>,
+    /// the buffer under test while it is temporarily part of a tuple (ExtendPairs); survives unwinding
+    pub pair: Option<(Cb<N>, Cb<N>)>,
 }
 impl<const N: usize> Hold<N> {
     pub fn ids(&self) -> Vec<u32> {
@@ -88,7 +90,26 @@ impl<const N: usize> Hold<N> {
         for b in &self.bufs {
             v.extend(b.iter().map(|e| e.0));
         }
+        if let Some((_, b1)) = &self.pair {
+            v.extend(b1.iter().map(|e| e.0));
+        }
         v
+    }
+}
+
+struct FaultyPairs {
+    inner: std::vec::IntoIter<(E, E)>,
+}
+impl Iterator for FaultyPairs {
+    type Item = (E, E);
+    fn next(&mut self) -> Option<(E, E)> {
+        if fault_point(FaultKind::IterNext) {
+            panic!("injected fault: iterator next");
+        }
+        self.inner.next()
+    }
+    fn size_hint(&self) -> (usize, Option<usize>) {
+        self.inner.size_hint()
     }
 }
 
@@ -436,6 +457,15 @@ pub fn apply<const N: usize>(
                 m(|| drop(d));
             }
         },
+        ExtendPairs(_) => {
+            let v: Vec<E> = std::mem::take(args);
+            let pairs: Vec<(E, E)> = v.into_iter().map(|e| (e, E::with_tag(ledger::TAG_HELD))).collect();
+            let it = FaultyPairs { inner: pairs.into_iter() };
+            let b: Cb<N> = *sut.b.take().unwrap();
+            hold.pair = Some((b, Cb::<N>::new()));
+            m(|| hold.pair.as_mut().unwrap().extend(it));
+            tr.push(Obs::Unit);
+        }
         ExtendFromBuf(..) => {
             let other: Cb<N> = *hold.bufs.pop().expect("source buffer");
             m(|| sut.buf().extend(other));
@@ -651,7 +681,7 @@ pub fn n_args(act: &Act) -> usize {
     use Act::*;
     match *act {
         PushBack | PushFront | TryPushBack | TryPushFront | Fill | FillSpare | WriteVia(..) => 1,
-        Extend(m) | ExtendFromSlice(m) | ExtendHint(m, _) => m,
+        Extend(m) | ExtendFromSlice(m) | ExtendHint(m, _) | ExtendPairs(m) => m,
         _ => 0,
     }
 }
@@ -708,6 +738,10 @@ pub fn exec_step<const N: usize>(
         apply(sut, act, &mut args, &mut trace, &mut hold);
     }));
     let (events, counts, fired) = ledger::end_call();
+    if let Some((b0, b1)) = hold.pair.take() {
+        sut.b = Some(Box::new(b0));
+        hold.bufs.push(Box::new(b1));
+    }
     let allocs = CRATE_ALLOCS.with(|c| c.get());
     let (panicked, panic_msg) = match &r {
         Ok(()) => (false, String::new()),
@@ -781,6 +815,10 @@ pub fn apply_fast<const N: usize>(sut: &mut Sut<N>, act: &Act) -> bool {
     let r = catch_unwind(AssertUnwindSafe(|| {
         apply(sut, act, &mut args, &mut trace, &mut hold);
     }));
+    if let Some((b0, b1)) = hold.pair.take() {
+        sut.b = Some(Box::new(b0));
+        drop(b1);
+    }
     drop(hold);
     drop(args);
     if matches!(act, Act::Drain(_, _, Fin::Forget)) && r.is_ok() && sut.b.is_some() {
